@@ -6,3 +6,6 @@ open PyPred
 #print axioms Gen.C10_and_left_raises_stream
 #print axioms Gen.C10_and_left_raises
 #print axioms Gen.C10_judged_by_C08_evaluator
+#print axioms Gen.C10_ge_neg_maxF
+#print axioms Gen.C10_ge_neg_maxF_stream
+#print axioms Gen.C10_ge_ninf_outside
